@@ -62,6 +62,8 @@ def prepare(c, ctx, flavour):
         outs = list(g.outputs)
         kw["select"] = list(dict.fromkeys(outs[i % len(outs)] for i in c["select"]))
         kw["on_missing"] = c["on_missing"]
+    if c.get("bad_on_missing"):
+        kw["on_missing"] = "raise"  # not one of ignore / warn / error
     return g, vals, kw, method, mapped, wrapper_graph
 
 
@@ -74,7 +76,7 @@ def execute(c, proc_factory, n_calls=None):
     flavour = "async" if runner_kind == "sched" else "sync"
     ctx = Ctx(compact=True)
     g, vals, kw, method, mapped, wrapper_graph = prepare(c, ctx, flavour)
-    cache = InMemoryCache()
+    cache = _FailingSetCache(InMemoryCache()) if c.get("cache_set_fails") else InMemoryCache()
     runner = SyncRunner(cache=cache) if runner_kind == "sync" else AsyncRunner(cache=cache)
     calls = []
     for i in range(n_calls or c["runs"]):
@@ -87,6 +89,8 @@ def execute(c, proc_factory, n_calls=None):
             common.update(map_over=mapped, error_handling=c["error_handling"])
         else:
             common.update(error_handling=c["error_handling"], max_iterations=c["max_iter"])
+        if runner_kind != "sync" and c.get("mc") is not None:
+            common["max_concurrency"] = c["mc"]
         try:
             with warnings.catch_warnings():
                 warnings.simplefilter("ignore")
@@ -123,6 +127,23 @@ def execute(c, proc_factory, n_calls=None):
         call.ctx_log = list(ctx.log)
         calls.append(call)
     return calls, wrapper_graph, ctx
+
+
+class CacheSetFault(RuntimeError):
+    pass
+
+
+class _FailingSetCache:
+    """Cache backend whose set() always raises (a full disk, a quota, an unpicklable result)."""
+
+    def __init__(self, inner):
+        self.inner = inner
+
+    def get(self, key):
+        return self.inner.get(key)
+
+    def set(self, key, value):
+        raise CacheSetFault("cache backend refused the write")
 
 
 def _is_validation(e):
